@@ -257,3 +257,4 @@ theorem shiftG_comm (R C dx dy ex ey : Nat) (g : Grid Int) :
   congr 2 <;> omega
 
 end Cpl.Life
+
